@@ -241,7 +241,22 @@ def g_updown(rng):
                                         {"lhs": "bal", "param": True, "alts": alts}]}
 
 
-SHAPES = [g_atleast, g_atleast, g_updown, g_perm, g_perm, g_count, g_count, g_bounded_ab, g_pick, g_countdown, g_nested]
+def g_nullpair(rng):
+    """adjacent references to instances that may be empty (completion of an instance already finished in the same
+    Earley set), a guarded single-alternative symbol passed through with ::_, and a nullable tail"""
+    ts = _terms(rng, 3)
+    while len(ts) < 3:
+        ts.append(ts[0])
+    n = rng.randint(1, 3)
+    return {"start": "start", "rules": [
+        {"lhs": "start", "param": False, "alts": [alt([ref("pair", const(0))])]},
+        {"lhs": "pair", "param": True, "alts": [alt([ref("opt", SELF), ref("opt", fn_k("set_bit", 1)), ts[0], ref("tail", SELF)])]},
+        {"lhs": "opt", "param": True, "alts": [alt([], fn_k("bit_clear", 1) if rng.random() < 0.5 else TRUE), alt([ts[1]])]},
+        {"lhs": "tail", "param": True, "alts": [alt([ref("item", SELF), ref("tail", fn_r("incr", ALL))]), alt([])]},
+        {"lhs": "item", "param": True, "alts": [alt([ts[2]], cmp_("lt", ALL, n))]}]}
+
+
+SHAPES = [g_nullpair, g_atleast, g_atleast, g_updown, g_perm, g_perm, g_count, g_count, g_bounded_ab, g_pick, g_countdown, g_nested]
 
 
 def rand_grammar(rng):
